@@ -1,0 +1,107 @@
+//go:build verif
+// +build verif
+
+package api
+
+// Accessors and event emitters for the external verification harness. This
+// file is only compiled with the "verif" build tag.
+
+import (
+	"sort"
+	"sync"
+
+	"github.com/evanw/esbuild/internal/verifhook"
+)
+
+type VerifEvent = verifhook.Event
+
+func VerifSetSink(f func(VerifEvent))         { verifhook.SetSink(f) }
+func VerifSetYield(seed uint64, permille int) { verifhook.SetYield(seed, permille) }
+func VerifSymbolTags(on bool)                 { verifhook.SetSymbolTags(on) }
+func VerifTick() uint64                       { return verifhook.Tick() }
+
+var (
+	verifMu       sync.Mutex
+	verifCtxIDs   = map[*internalContext]uint64{}
+	verifBuildIDs = map[*buildInProgress]uint64{}
+)
+
+func verifCtxID(ctx *internalContext) uint64 {
+	verifMu.Lock()
+	defer verifMu.Unlock()
+	id, ok := verifCtxIDs[ctx]
+	if !ok {
+		id = verifhook.NextID()
+		verifCtxIDs[ctx] = id
+	}
+	return id
+}
+
+// VerifContextID returns the identifier used for "ctx" in emitted events.
+func VerifContextID(c BuildContext) uint64 {
+	if ctx, ok := c.(*internalContext); ok {
+		return verifCtxID(ctx)
+	}
+	return 0
+}
+
+// VerifForget drops the bookkeeping for a context (call after Dispose).
+func VerifForget(c BuildContext) {
+	if ctx, ok := c.(*internalContext); ok {
+		verifMu.Lock()
+		delete(verifCtxIDs, ctx)
+		verifMu.Unlock()
+	}
+}
+
+// Called with ctx.mutex held, right after the build became the active build.
+func verifBuildBegin(ctx *internalContext, build *buildInProgress) {
+	id := verifCtxID(ctx)
+	seq := verifhook.NextID()
+	verifMu.Lock()
+	verifBuildIDs[build] = seq
+	verifMu.Unlock()
+	verifhook.Emit("build_begin", id, seq, "")
+}
+
+// Called with ctx.mutex held, right before the build stops being active.
+func verifBuildEnd(ctx *internalContext, build *buildInProgress) {
+	id := verifCtxID(ctx)
+	verifMu.Lock()
+	seq := verifBuildIDs[build]
+	delete(verifBuildIDs, build)
+	verifMu.Unlock()
+	verifhook.Emit("build_end", id, seq, "")
+}
+
+// Called with ctx.mutex held, when a caller decides to wait for the active build.
+func verifBuildJoin(ctx *internalContext, build *buildInProgress) {
+	id := verifCtxID(ctx)
+	verifMu.Lock()
+	seq := verifBuildIDs[build]
+	verifMu.Unlock()
+	verifhook.Emit("build_join", id, seq, "")
+}
+
+// VerifRebuildWatch performs a rebuild with watch data collection enabled
+// (without starting the polling goroutine) and returns the result together
+// with a function that synchronously evaluates the build's own watch
+// predicates and returns the paths they report as dirty.
+func VerifRebuildWatch(c BuildContext) (BuildResult, func() []string) {
+	ctx := c.(*internalContext)
+	ctx.mutex.Lock()
+	ctx.args.options.WatchMode = true
+	ctx.mutex.Unlock()
+	state := ctx.rebuild()
+	data := state.watchData
+	return state.result, func() []string {
+		var dirty []string
+		for _, fn := range data.Paths {
+			if p := fn(); p != "" {
+				dirty = append(dirty, p)
+			}
+		}
+		sort.Strings(dirty)
+		return dirty
+	}
+}
